@@ -79,7 +79,33 @@ func c18(r *core.Run) {
 
 	consts := stringConsts(p, "")
 	// ---- V1 --------------------------------------------------------------
+	// the reference prefix / soft suffix by role: the constant strings the two marshallers copy
+	// into their buffers (the one opening the object, the one closing the soft reference)
+	constCopies := func(fn *ssa.Function) []string {
+		var out []string
+		if fn == nil {
+			return out
+		}
+		for _, c := range helperCalls(p, fn) {
+			if core.CalleeName(c) == "builtin:copy" && len(c.Common().Args) == 2 {
+				if sv, ok := core.ConstString(c.Common().Args[1]); ok {
+					out = append(out, sv)
+				}
+			}
+		}
+		return out
+	}
 	pre, sufSoft := consts["refPrefix"], consts["softRefSuffix"]
+	for _, sv := range constCopies(methodNamed(p, "", "Ref", "MarshalJSON")) {
+		if strings.HasPrefix(sv, "{") {
+			pre = sv
+		}
+	}
+	for _, sv := range constCopies(methodNamed(p, "", "SoftRef", "MarshalJSON")) {
+		if strings.HasSuffix(sv, "}") && !strings.HasPrefix(sv, "{") {
+			sufSoft = sv
+		}
+	}
 	vo := p.NamedType("store", "valueObject")
 	if pre == "" || sufSoft == "" || vo == nil {
 		r.Unres("V1", "refPrefix/softRefSuffix/store.valueObject", "missing")
